@@ -106,6 +106,12 @@ def RState.shapeCount (st : RState) : ROut :=
   | some idx => .count idx.length
   | Option.none => .err .noIndex
 
+/-- `size_hint()` of a freshly created iterator -/
+def RState.sizeHint (st : RState) : Option Nat :=
+  match st.index with
+  | some idx => some (idx.length - st.nextShape)
+  | Option.none => Option.none
+
 /-- drain an iterator; `fuel` bounds the number of `next` calls (every call consumes an index
 entry or at least 12 source bytes, or ends the iteration: see `Props/C07`) -/
 def RState.iterAll (o : Orient) (tg : Target) (fuel : Nat) (st : RState) : RState × List ROut :=
@@ -127,6 +133,35 @@ def collectShapes : List ROut → Except ROut (List Shape)
   | [] => .ok []
   | .shape s :: rest => (collectShapes rest).map (s :: ·)
   | e :: _ => .error e
+
+/-- the operations a caller can apply to a reader, in any order -/
+inductive ROp where
+  | iter (j : Nat)      -- create an iterator and pull (up to) `j` items from it
+  | nth (i : Nat)       -- `read_nth_shape(i)`
+  | seek (k : Nat)      -- `seek(k)`
+  | count               -- `shape_count()`
+  | hint                -- `size_hint()` of a fresh iterator
+  deriving DecidableEq, Repr, Inhabited
+
+inductive RRes where
+  | items (l : List ROut)
+  | one (r : ROut)
+  | hintRes (h : Option Nat)
+  deriving Repr
+
+def RState.step (o : Orient) (tg : Target) (st : RState) : ROp → RState × RRes
+  | .iter j => let r := st.iterAll o tg j; (r.1, .items r.2)
+  | .nth i => let r := st.readNth o tg i; (r.1, .one r.2)
+  | .seek k => let r := st.seek k; (r.1, .one r.2)
+  | .count => (st, .one st.shapeCount)
+  | .hint => (st, .hintRes st.sizeHint)
+
+def RState.run (o : Orient) (tg : Target) (st : RState) : List ROp → RState × List RRes
+  | [] => (st, [])
+  | op :: ops =>
+    let r := st.step o tg op
+    let rs := r.1.run o tg ops
+    (rs.1, r.2 :: rs.2)
 
 /-- open a reader and read everything (`ShapeReader::new(..)?.read()` and friends) -/
 def readAll (o : Orient) (tg : Target) (shp : Bytes) (shx : Option Bytes) : Except ROut (List Shape) :=
